@@ -110,7 +110,7 @@ func RunOne(t *testing.T, cfg RunConfig, replay []int, withTrace bool) (rep *Run
 			if withTrace || len(s.Viol) > 0 {
 				rep.Trace = ch.Values()
 			}
-			if cfg.KeepLog || len(s.Viol) > 0 {
+			if cfg.KeepLog {
 				rep.Log = s.LogLines
 			}
 			rep.Sample = s.Sample
